@@ -2792,8 +2792,8 @@ class FnTranslator:
             pre.append(("let", v, base))
             self.place_set(recv, "none", env, pre)
             return v, bt, "val"
-        if recv[0] in ("field", "mcall"):
-            # `self.inner.method(..)` / `self.validator().method(..)` with a receiver of an opaque type
+        if recv[0] in ("field", "mcall", "call"):
+            # `self.inner.method(..)` / `self.validator().method(..)` / `f(x).method(..)` (b1819) with a receiver of an opaque type
             # (`Arc<dyn Trait>`): a method external on it
             pre0, n0 = [], self.n      # (a probe of the receiver's type: must not consume fresh names)
             try:
